@@ -612,6 +612,24 @@ func c13Run(c *Ctx) {
 	}
 
 	// ---- (3) E3 scenarios
+	// synchronisation the shims do not model (channels, goroutines started by the library) could order
+	// accesses invisibly: with such constructs present, race and deadlock findings of E3 are only
+	// noted, never raised (result mismatches remain violations: they are observations, not inferences)
+	unmodelledSync := false
+	if b, err := os.ReadFile(filepath.Join(dir, "ov", "report.json")); err == nil {
+		var rep struct {
+			Unmodelled []string `json:"unmodelled"`
+		}
+		json.Unmarshal(b, &rep)
+		for _, u := range rep.Unmodelled {
+			if strings.HasPrefix(u, "go statement") || strings.HasPrefix(u, "channel") || strings.HasPrefix(u, "select") {
+				unmodelledSync = true
+			}
+		}
+		for _, u := range rep.Unmodelled {
+			c.NotExhaustive("instrumenter: unmodelled construct: " + u)
+		}
+	}
 	scs := c13Scenarios(thorough)
 	c.Bound("E3", map[string]any{"scenarios": len(scs), "colliding_calls": c13Colliding, "max_preemptions": scs[0].MaxPreemptions, "max_map_order_deviations": scs[0].MaxMapDev, "max_executions_per_scenario": scs[0].MaxExecutions})
 	for si, sc := range scs {
@@ -656,6 +674,11 @@ func c13Run(c *Ctx) {
 			return map[string]any{"scenario": sc.Name, "threads": sc.Threads, "executions": o.Executions, "max_choice_points": o.MaxPoints, "distinct_result_vectors": len(o.Outcomes)}
 		})
 		for _, f := range o.Findings {
+			if unmodelledSync && (f.Kind == "race" || f.Kind == "deadlock") {
+				c.Inc("e3_findings_not_raised_unmodelled_sync")
+				c.Note(fmt.Sprintf("E3 %s in scenario %s not raised because the library uses synchronisation the shims do not model: %s", f.Kind, sc.Name, first(f.Detail, 160)))
+				continue
+			}
 			c.Report(Violation{Kind: "c13.e3", Class: "E3:" + f.Kind, Key: "e3:" + sc.Name + ":" + f.Kind + ":" + first(f.Detail, 80), Msg: fmt.Sprintf("scenario %s, schedule %s: %s", sc.Name, compactSchedule(f.Schedule), f.Detail), Size: len(f.Schedule) + 10*len(sc.Threads),
 				Case: mustJSON(c13Case{Kind: "e3", Scenario: sc, Schedule: f.Schedule, Finding: f.Detail})})
 		}
